@@ -356,7 +356,7 @@ def classify(uf, root_res, nl_res, can_res):
             for msg, labelled, rendered in fl:
                 if UNDECIDED_PAT.search(msg):
                     obs.append(Obligation(uf.unit, "exec", it.name, "undecided", rendered, exec_props(it.info)))
-                elif "postcondition" in msg and it.info.get("manual") and (it.info.get("ty") == "Derivative" or it.info.get("trait") == "Display"):
+                elif "postcondition" in msg and it.info.get("manual") and (it.info.get("ty") == "Derivative" or it.info.get("trait") == "Display" or "C17" in (it.info.get("props") or [])):
                     # hand-written contract taken from the property (dense-view semantics): a real violation
                     obs.append(Obligation(uf.unit, "contract", it.name, "failed", rendered, exec_props(it.info), it.info.get("what") or "dense-view contract"))
                 elif "postcondition" in msg:
@@ -401,7 +401,7 @@ def exec_props(f):
 
 
 def exec_props0(f):
-    if f.get("variant"):
+    if f.get("variant") or "C17" in (f.get("props") or []):
         return list(f.get("props") or [])
     if f.get("trait") in ("ComplexField", "RealField"):
         return ["C11"]
@@ -478,4 +478,49 @@ def assemble_spec():
     uf = UnitFile("Spec", path, items, ls + [hom], ncan)
     uf.nl_modes = ["nl%d" % k for k in range(nsh)]
     uf.ex_modes = []
+    return uf
+
+
+def extract_py(expanded, classes):
+    p = subprocess.run([EXTRACT_BIN, expanded, os.path.join(VERIF, "contracts", "contracts.json"), GEN, "Py"] + list(classes), capture_output=True, text=True)
+    if p.returncode != 0:
+        log(p.stderr[-2000:])
+        raise Undecided("extractor failed on the python expansion: " + p.stderr[-300:])
+    return json.load(open(os.path.join(GEN, "Py.meta.json")))
+
+
+def assemble_py(meta, nshards=4):
+    """Python wrapper unit (C17): wrapper bodies against forwarding contracts over the abstract wrapped number"""
+    parts, items, line = [], [], [1]
+
+    def emit(txt):
+        parts.append(txt)
+        line[0] += txt.count("\n")
+
+    emit(HEADER)
+    emit(prelude.generate())
+    emit(prelude.generate_py())
+    lines = open(os.path.join(GEN, "Py.exec.rs")).read().split("\n")
+    fns = meta["functions"]
+    # struct definitions (lines not inside any function range) stay in the root module
+    covered = set()
+    for f in fns:
+        covered.update(range(f["gen_line"], f["gen_end_line"] + 1))
+    emit("\n".join(l for i, l in enumerate(lines, 1) if i not in covered) + "\n")
+    for k in range(nshards):
+        emit("pub mod ex%d {\nuse super::*;\n" % k)
+        for i, f in enumerate(fns):
+            if i % nshards != k:
+                continue
+            first = line[0]
+            emit("\n".join(lines[f["gen_line"] - 1:f["gen_end_line"]]) + "\n")
+            items.append(Item("exec", f["id"], first, line[0] - 1, f))
+        emit("}\n")
+    emit(FOOTER)
+    path = os.path.join(GEN, "unit_Py.rs")
+    with open(path, "w") as fh:
+        fh.write("".join(parts))
+    uf = UnitFile("Py", path, items, [], 0)
+    uf.nl_modes = []
+    uf.ex_modes = ["ex%d" % k for k in range(nshards)]
     return uf
